@@ -357,7 +357,13 @@ func ProofAuthenticate(cfg ProofConfig, inner AuthenticateFunc) (AuthenticateFun
 	}
 	var cache *nonceCache
 	if !cfg.DisableReplayCache {
-		cache = newNonceCache(time.Duration(cfg.SkewSeconds)*time.Second, capacity, cfg.Now)
+		// A nonce must be remembered for as long as its proof's timestamp can
+		// still pass the window. The window is two-sided: a proof stamped
+		// now+skew is accepted now and stays acceptable until now+2*skew, and
+		// the comparison is on whole seconds, which adds up to one more.
+		// Remembering it for only one skew lets the same proof through again.
+		ttl := time.Duration(2*cfg.SkewSeconds+1) * time.Second
+		cache = newNonceCache(ttl, capacity, cfg.Now)
 	}
 	required := cfg.Mode == ProofModeRequire
 	local := cfg
